@@ -5,11 +5,15 @@ import re
 import z3
 
 from . import parser
-from .interp import Agg, EnumV, Opaque, INT_TYPES, norm_type, Unencodable
+from .interp import Agg, EnumV, Opaque, Abs, INT_TYPES, norm_type, Unencodable
 
 
 class TypeDB:
-    def __init__(self, roots):
+    def __init__(self, roots, features=("num-integer-backend",)):
+        self.features = set(features)
+        self._init(roots)
+
+    def _init(self, roots):
         self.roots = roots if isinstance(roots, (list, tuple)) else [roots]
         self.cache = {}
         self._srcs = None
@@ -42,11 +46,16 @@ class TypeDB:
             body = src[m.end():j]
             body = re.sub(r"//[^\n]*", "", body)
             body = re.sub(r"/\*.*?\*/", "", body, flags=re.S)
+            # fields behind a disabled cargo feature do not exist in the compiled layout
+            def _cfg(mm):
+                feat = mm.group(1)
+                return "" if feat in self.features else "@@DROP@@ "
+            body = re.sub(r'#\[cfg\(feature\s*=\s*"([^"]+)"\)\]', _cfg, body)
             body = re.sub(r"#\[[^\]]*\]", "", body)
             fields = []
             for k, part in enumerate(parser.split_top(body, ",")):
                 part = part.strip()
-                if not part:
+                if not part or part.startswith("@@DROP@@"):
                     continue
                 part = re.sub(r"^pub(\([^)]*\))?\s+", "", part)
                 if m.group(1) == "{":
@@ -78,15 +87,21 @@ TypeDB.alias = _alias
 
 
 class SymBuilder:
-    def __init__(self, typedb, interp):
+    def __init__(self, typedb, interp, abstract=None):
         self.db = typedb
         self.I = interp
         self.constraints = []
         self.vars = {}
+        self.abstract = abstract or {}  # regex on normalised type -> sort name
 
     def make(self, ty, prefix):
         ty = ty.strip()
         nt = norm_type(ty)
+        for rx, sort in self.abstract.items():
+            if re.fullmatch(rx, nt):
+                v = z3.Int(prefix)
+                self.vars[prefix] = v
+                return Abs(sort, v)
         if nt in INT_TYPES:
             v = z3.Int(prefix)
             lo, hi = INT_TYPES[nt]
@@ -118,5 +133,10 @@ class SymBuilder:
             vals = list(tbl.values()) if isinstance(tbl, dict) else list(range(len(tbl)))
             self.constraints.append(z3.Or([d == v for v in vals]))
             self.vars[prefix + ".discr"] = d
-            return EnumV(base, d, {})
+            pls = {}
+            for vn, tys in getattr(self.I, "enum_payloads", {}).get(base, {}).items():
+                if tys:
+                    pls[tbl[vn] if isinstance(tbl, dict) else tbl.index(vn)] = tuple(
+                        self.make(t, "%s.%s.%d" % (prefix, vn, i)) for i, t in enumerate(tys))
+            return EnumV(base, d, pls)
         raise Unencodable("cannot build a symbolic value of type %s" % ty)
